@@ -56,6 +56,24 @@ class FakeCoordinator:
         self.endpoints = {ep: types.SimpleNamespace(member_of={g: None for g in groups}) for ep, groups in layout.items()}
 
 
+def startup_calls(layout, writes):
+    """The subscribe calls one Multicast.startup() makes for this layout, as the model's Startup operation takes them:
+    (group, index set.pop() returned) per call.  The index is read off the implementation's own writes, which are matched
+    to the calls in order by their group id; a call that issued no write gets 0 (the model does not consult it unless it
+    reaches the pop, in which case it writes where the implementation did not and the two disagree)."""
+    calls, k = [], 0
+    for ep, groups in layout.items():
+        if ep == 0:
+            continue
+        for g in groups:
+            if k < len(writes) and writes[k][1] == g:
+                calls.append((g, writes[k][0]))
+                k += 1
+            else:
+                calls.append((g, 0))
+    return calls
+
+
 def initial_tables(size):
     """NCP tables of this size in which each group appears at most once (entries: group, endpoint)."""
     if size == 0:
@@ -80,9 +98,10 @@ class Check(PropertyCheck):
     gen_files = ["GenStatus", "GenMulticastFn", "GenMulticastInitFn"]
     model_imports = ["gen.GenStatus", "model.Status", "model.Multicast"]
     run_expr = "run_case"
-    case_type = "(list (N * N) * list (N * N * N * N * list N))"
+    case_type = "(list (N * N) * list (N * N * N * N * list N * list (N * N)))"
     shard = 300
-    rule = ("start-up (table scan, and Multicast.startup() re-subscribing coordinator layouts in which several endpoints list one group) then every subscribe/unsubscribe sequence up to a length bound over 3 groups, table sizes 0..4, "
+    rule = ("start-up (table scan, and Multicast.startup() re-subscribing coordinator layouts in which several endpoints list one group -- compared "
+            "with the model's Startup operation: all the table writes of the call, in order, its outcome and the state after it) then every subscribe/unsubscribe sequence up to a length bound over 3 groups, table sizes 0..4, "
             "each write answered {success, rejection (every status of the legacy and of the unified family), timeout (write lost), timeout (write applied)}, from initial NCP tables in "
             "which each group appears at most once; plus random longer sequences incl. unreadable entries; non-trivial = at "
             "least one table write was issued; distinct by (table, op sequence)")
@@ -131,18 +150,19 @@ class Check(PropertyCheck):
         # rejected write leaves the free indices as they were, whatever the status; legacy and unified (v14) families
         for sl in (False, True):
             codes = list(range(1, 256)) + ([0x0C01, 0x0C1E, 0xFFFF] if sl else [])
-            if tier == "quick":
-                codes = sorted(set([1, 2, 0x21, 0x27, 0x70, 0xB1, 0xB4, 0xB5] + rng.sample(codes, 24)))
             for code in codes:
                 cases.append({"table": [(0, 0)], "init": (0, []), "sl": sl,
                               "ops": [("sub", GROUPS[0], code), ("sub", GROUPS[0], 0), ("unsub", GROUPS[0], code), ("unsub", GROUPS[0], 0)]})
+            if tier == "quick":
+                codes = sorted(set([1, 2, 0x21, 0x27, 0x70, 0xB1, 0xB4, 0xB5] + rng.sample(codes, 24)))
+            for code in codes:
                 cases.append({"table": [(0, 0), (GROUPS[1], 1)], "init": (0, []), "sl": sl,
                               "ops": [("sub", GROUPS[0], code), ("sub", GROUPS[2], 0), ("sub", GROUPS[0], 0)]})
         # Multicast.startup(coordinator): the table scan followed by the re-subscription of the coordinator's groups
         for size in sizes:
             for tbl in initial_tables(size):
                 for li in range(len(LAYOUTS)):
-                    for a in (0, 1, T_LOST):
+                    for a in (0, 1, T_LOST, T_APPLIED):
                         for after in ([], [("unsub", GROUPS[0], 0)], [("sub", GROUPS[2], 0), ("unsub", GROUPS[0], 0), ("sub", GROUPS[1], 0)]):
                             cases.append({"table": tbl, "init": (0, []), "ops": [("startup", li, a)] + after})
         nrand = 1200 if tier == "quick" else 12000
@@ -161,6 +181,28 @@ class Check(PropertyCheck):
             if rng.random() < 0.15:
                 seq.insert(rng.randrange(len(seq)), ("init", 0, 0))
             cases.append({"table": tbl, "init": init, "ops": seq})
+        # start-up anywhere in a sequence (the application restarts and re-subscribes the coordinator's groups).  Up to that
+        # start-up every call is answered with success or a refusal: such calls keep each group at most once in the NCP table
+        # (c15_mirror_distinct), so the scan is of a table the property speaks of; the start-up's own writes get any answer
+        ansops = [(k, g, a) for g in GROUPS for k in ("sub", "unsub") for a in (0, 1)]
+        prefixes = [[o] for o in ansops] + [list(p) for p in itertools.product(ansops, repeat=2)]
+        prefixes += [[("startup", li, a0), o] for li in range(len(LAYOUTS)) for a0 in (0, 1) for o in ansops[:4]]
+        for size in (2, 3):
+            for tbl in initial_tables(size):
+                for pre in prefixes:
+                    if tier == "quick" and len(pre) == 2 and rng.random() < 0.8:
+                        continue
+                    for _ in range(1 if tier == "quick" else 4):
+                        li, a = rng.randrange(len(LAYOUTS)), rng.choice((0, 1, T_LOST, T_APPLIED))
+                        cases.append({"table": tbl, "init": (0, []), "ops": pre + [("startup", li, a), ("sub", GROUPS[2], 0)]})
+        # random longer sequences with one start-up, placed no later than the first call that ends in a timeout
+        for _ in range(nrand // 4):
+            size = rng.randrange(0, 5)
+            tbl = rng.choice(initial_tables(size))
+            seq = [rng.choice(ops_r) for _ in range(rng.randrange(3, 10))]
+            first_timeout = next((i for i, o in enumerate(seq) if o[2] in (T_LOST, T_APPLIED)), len(seq))
+            seq.insert(rng.randrange(first_timeout + 1), ("startup", rng.randrange(len(LAYOUTS)), rng.choice((0, 0, 1, 0x70, T_LOST, T_APPLIED))))
+            cases.append({"table": tbl, "init": (0, []), "ops": seq})
         return cases
 
     def run_impl(self, case):
@@ -172,6 +214,7 @@ class Check(PropertyCheck):
 
         def snap(ret, writes):
             return {"ret": ret, "write": list(writes[-1]) if writes else None, "nwrites": len(writes),
+                    "writes": [list(w) for w in writes],
                     "subs": [int(g) for g in mc._multicast], "used": [int(v[1]) for v in mc._multicast.values()],
                     "avail": sorted(int(i) for i in mc._available),
                     "ncp": [list(e) for e in ncp.table]}
@@ -215,20 +258,24 @@ class Check(PropertyCheck):
 
     # ---- model side ---------------------------------------------------------------------
     def model_input(self, case):
-        if any(o[0] == "startup" for o in case["ops"]):
-            return None         # start-up issues several writes in one call: judged by the property predicate
-        # the index Python's set.pop() chose is read off the implementation's own write
+        # the index Python's set.pop() chose is read off the implementation's own writes
         obs = case["_obs"]
-        ops = [f"(0, {case['init'][0]}, 0, 0, [{';'.join(str(s) for s in case['init'][1])}])"]
+        ops = [f"(0, {case['init'][0]}, 0, 0, [{';'.join(str(s) for s in case['init'][1])}], [])"]
         k = 1
         for kind, g, a in case["ops"]:
             o = obs[k] if k < len(obs) else {}
             k += 1
             if kind == "init":
-                ops.append("(0, 0, 0, 0, [])")
+                ops.append("(0, 0, 0, 0, [], [])")
+                continue
+            if kind == "startup":
+                # one Startup operation of the model: the groups of the layout's endpoints other than 0 in iteration order
+                # (duplicates kept), each with the index the implementation wrote for that call; a = the answer to every write
+                calls = startup_calls(LAYOUTS[g], o.get("writes") or [])
+                ops.append(f"(3, 0, 0, {a}, [], [{';'.join(f'({gg},{c})' for gg, c in calls)}])")
                 continue
             choice = o["write"][0] if o.get("write") else 0
-            ops.append(f"({1 if kind == 'sub' else 2}, {g}, {choice}, {a}, [])")
+            ops.append(f"({1 if kind == 'sub' else 2}, {g}, {choice}, {a}, [], [])")
         tbl = "[" + ";".join(f"({g},{e})" for g, e in case["table"]) + "]"
         return f"({tbl}, [{'; '.join(ops)}])"
 
@@ -239,7 +286,9 @@ class Check(PropertyCheck):
                 z.append(-99)
                 continue
             z.append(o["ret"])
-            z += [0] if o["write"] is None else [1] + o["write"]
+            z.append(len(o["writes"]))          # every table write of the call, in order (the model's enc_writes)
+            for w in o["writes"]:
+                z += w
             z += [len(o["subs"])] + o["subs"] + [sum(1 << i for i in o["avail"])]
             for g, e in o["ncp"]:
                 z += [g, e]
